@@ -41,3 +41,11 @@ pub extern "C" fn c13_wrap_seq() {
     vassert(Arc::strong_count(&f) == 2, 6);
     cover(1);
 }
+
+/// Calibration: a freshly used node; the engine finds the debt-slot cells (those holding NONE).
+#[no_mangle]
+pub extern "C" fn calib_node() {
+    let a = ArcSwap::from_pointee(1u64);
+    drop(a.load());
+    mark(902, 0);
+}
